@@ -21,7 +21,7 @@ func init() {
 			"(5) scan option table (P-ORD over the five option combinations): prefix+suffix → suffix(prefix(full)), prefix → prefix(full), suffix → suffix(full), start/end → range(start,end), none → full, with the request's own fields as arguments; entries are sent only on the not-a-tombstone edge and the limit counts sent entries; " +
 			"(6) an empty value is not turned into a deletion on the request path.",
 		NotDecided: "equality of responses with the embedded API for all request sequences and data sets; gRPC transport behaviour; connection-bound transaction cleanup; GetStats contents.",
-		Rules:      []func(*Ctx, *Reporter){ruleC19Delegation, ruleC19Limits, ruleC19Rejection, ruleC19Handles, ruleC19ScanOptions, ruleScanConsumers, ruleEmptyNotDeleted},
+		Rules:      []func(*Ctx, *Reporter){ruleC19Delegation, ruleC19Limits, ruleC19Rejection, ruleC19Handles, ruleC19ScanOptions, ruleScanConsumers, ruleEmptyNotDeleted, ruleFilter},
 	})
 }
 
